@@ -25,6 +25,9 @@ def to_arr(I, v):
                 raise Unsupported("nested array")
             items.append(x)
         kind = elem_kind(items[0]) if items else "xr"
+        if any(isinstance(x, (XR, Fraction)) for x in items) and all(is_scalar(x) for x in items):
+            items = [xr(x if not isinstance(x, SBool) else x_from_bool(x)) for x in items]   # mixed int/float -> float array
+            kind = "xr"
         return SymArr(len(items), kind=kind, items=[npscalar(x) for x in items])
     return None
 
@@ -174,11 +177,13 @@ def norm_slice(I, arr, sl):
         if isinstance(v, int):
             if v < 0:
                 t = iadd(n, v)
-                return mkint(iite(icmp("<", t, 0), 0, t))
-            return mkint(iite(icmp("<", n, v), n, v))
-        t = iite(icmp("<", v, 0), iadd(n, v), v)
-        t = iite(icmp("<", t, 0), 0, t)
-        t = iite(icmp(">", t, n), n, t)
+                return mkint(fold_ite(icmp("<", t, 0), 0, mkint(t)))
+            if v == 0:
+                return 0
+            return mkint(fold_ite(icmp("<", n, v), mkint(n), v))
+        t = fold_ite(icmp("<", v, 0), mkint(iadd(n, v)), mkint(v))
+        t = fold_ite(icmp("<", t, 0), 0, t)
+        t = fold_ite(icmp(">", t, n), mkint(n), t)
         return mkint(t)
 
     start = norm(sl.start, 0)
@@ -194,8 +199,10 @@ def arr_getitem(I, arr, key):
             r = SymArr(0, kind=arr.kind, items=arr.items[start:stop])
         else:
             ln = isub(iterm(stop), iterm(start))
-            ln = mkint(iite(icmp("<", ln, 0), 0, ln))
+            ln = mkint(fold_ite(icmp("<", ln, 0), 0, mkint(ln)))
             r = SymArr(ln, lambda i: arr.at(mkint(iadd(start, i))), arr.kind)
+            if isinstance(start, int) and start == 0:
+                r.prefix_of = arr      # running folds over a prefix ARE the parent's running folds
         r.is_list = arr.is_list
         return r
     if isinstance(key, SymArr):
@@ -513,6 +520,8 @@ def install(I):
             raise Unsupported("np.sum of objects")
         if arr.items is not None and len(arr.items) == 0:
             return XR.const(0, npk=True)   # np.sum([]) is float 0.0
+        if arr.items is None and arr.kind == "bool" and skolem_valid(lambda i: mkbool(bnot(bterm(arr.at(i)))), arr.length, "nonetrue"):
+            return 0
         f = arr.fold("+")
         r = f.at(arr.length)
         if arr.items is None and not f.intkind:
